@@ -69,7 +69,8 @@ func (s *BoltStore) Get(name enc.Name, prefix bool) (wire []byte, err error) {
 					continue
 				}
 				ver := binary.BigEndian.Uint64(v[:8])
-				if ver > maxVer {
+				// the first match is taken whatever its version (0 is a valid version)
+				if wire == nil || ver > maxVer {
 					maxVer = ver
 					wire = v[8:]
 				}
